@@ -26,7 +26,7 @@ RULE = ("one run = one small seeded schema tree (1-3 files, all declaration kind
         "torn(file,k) for EVERY byte offset k of EVERY file (exhaustive per tree), ~40 garbles per tree (token replaced by an "
         "illegal character / a token of another kind / deleted / duplicated / swapped, plus targeted out-of-domain literals: "
         "float field id, string or float enumerator value, unknown and ill-arity parameters, emptied enum, float / negative "
-        "array size), missing(file), empty(file), and fault-free controls; both get_fcp (files) and get_fcp_from_string; "
+        "array size, a bracket token duplicated 150-2500 times = deeply nested types and values), missing(file), empty(file), and fault-free controls; both get_fcp (files) and get_fcp_from_string; "
         "evaluations = parses judged; distinct_nontrivial counts distinct (file depth, fault kind, token kind at the fault "
         "point, inside/before token, API, outcome) tuples whose parse did not succeed")
 COMPONENTS = {
@@ -57,7 +57,7 @@ def preload():
 
 
 EXPECTED_PROBES = {t: ["torn_root_inside_token", "torn_module", "torn_to_empty", "garble_float_id", "garble_string_enum_value",
-                       "garble_unknown_param", "garble_param_arity", "garble_empty_enum", "garble_array_size",
+                       "garble_unknown_param", "garble_param_arity", "garble_empty_enum", "garble_array_size", "garble_deep_nest",
                        "missing_module", "empty_module", "string_api", "tree_modified_in_place", "shared_logger_reused", "err_rendered",
                        "citation_checked"] for t in TIERS}
 
@@ -134,6 +134,19 @@ def targeted(rng, text, toks):
     if en:
         m = rng.choice(en)
         out.append(("garble_empty_enum", text[:m.start(2)] + "\n" + text[m.end(2):]))
+    # a token duplicated many times: deeply nested types / values (balanced and torn)
+    ty = [m for m in re.finditer(r"@\d+: ([A-Za-z_0-9]+)", text)]
+    if ty:
+        m = rng.choice(ty)
+        n = rng.choice([150, 400, 1000, 2500])
+        opener, closer = rng.choice([("[", "]"), ("Optional[", "]"), ("[", ", 2]")])
+        out.append(("garble_deep_nest", text[:m.start(1)] + opener * n + m.group(1) + closer * n + text[m.end(1):]))
+        out.append(("garble_deep_nest", text[:m.start(1)] + opener * n + m.group(1) + closer * (n // 2) + text[m.end(1):]))
+    vals = [m for m in re.finditer(r": (-?\d+),\n", text)]
+    if vals:
+        m = rng.choice(vals)
+        n = rng.choice([400, 1500])
+        out.append(("garble_deep_nest", text[:m.start(1)] + "[" * n + m.group(1) + "]" * n + text[m.end(1):]))
     ar = [m for m in re.finditer(r"\[[^\[\],]+, (\d+)\]", text)]
     if ar:
         m = rng.choice(ar)
